@@ -43,7 +43,7 @@ def one(bid):
 def run(ids):
     base = os.path.join(VERIF, "benign")
     ids = ids or sorted(os.listdir(base))
-    with ThreadPoolExecutor(4) as ex:
+    with ThreadPoolExecutor(14) as ex:
         for bid, out in ex.map(one, ids):
             print(bid, "SILENT" if not out else out)
 
